@@ -204,6 +204,14 @@ var poolCalls = []poolCall{
 	{"err-chain", func() string {
 		return string(redact.Sprintf("%v|%+v", &poolChainErr{"outer", theErr}, []error{theErr, poolValErr{"v"}}))
 	}},
+	// byte arrays passed by value (not addressable): two kinds with different contents, so that any scratch space shared
+	// between calls shows when goroutines run them side by side
+	{"bytearray-a", func() string {
+		return string(redact.Sprintf("%x|%s|%q|%X", [8]byte{1, 2, 3, 4, 5, 6, 7, 8}, [5]byte{'h', 'e', 'l', 'l', 'o'}, [3]byte{'a', 'b', 'c'}, [32]byte{0xAA, 0xAB, 31: 0xAF}))
+	}},
+	{"bytearray-b", func() string {
+		return string(redact.Sprintf("%x|%s|%q|%X", [8]byte{9, 9, 9, 9, 9, 9, 9, 9}, [5]byte{'w', 'o', 'r', 'l', 'd'}, [3]byte{'x', 'y', 'z'}, [32]byte{0x11, 0x12, 31: 0x1F}))
+	}},
 	{"markers", func() string { return string(redact.Sprintf("%s %v", "a‹b›\n", []byte("x›"))) }},
 }
 
@@ -388,6 +396,10 @@ func poolHistory(args []string) {
 		}
 	}
 	if *hook {
+		// the hook renders every error it is handed, also the ones it prints itself through the printer it was given
+		if got, want := guardCall(callByName("err-chain").fn), "hooked:‹outer› <- hooked:‹wrapped-err›|[hooked:‹wrapped-err› hooked:‹v›]"; got != want {
+			rep.Violate("pool:history:hook-chain", fmt.Sprintf("with the hook registered, an error chain and a slice of errors print %q, the hook alone renders them as %q", got, want), poolCase{"pool-history", nil, "err-chain"})
+		}
 		// registration is itself an earlier call: a hook registered (or removed) after printers have been used and
 		// pooled applies to the very next call, whichever printer serves it
 		expHook, expNo := expected, freshExpectedEnv(false)
